@@ -185,4 +185,134 @@ theorem streamRun_record_eof (o : StreamOpt) (hwf : NoAdjFillers o.bounds) (l : 
       simp only [Run.empty_seq]
       exact ih i k (cur ++ [c]) true hl' (Or.inl rfl)
 
+/-! ## the input, record by record -/
+
+theorem splitRecords_noeol (eol : UInt8) (l : Bytes) : ∀ cur : Bytes, (∀ c ∈ l, c ≠ eol) →
+    splitRecords eol cur l = if (cur.reverse ++ l).isEmpty then [] else [cur.reverse ++ l] := by
+  induction l with
+  | nil => intro cur _; cases cur <;> simp [splitRecords]
+  | cons c l ih =>
+    intro cur hl
+    have hc : c ≠ eol := hl c (by simp)
+    rw [splitRecords, if_neg hc, ih _ (fun x hx => hl x (by simp [hx]))]
+    simp
+
+theorem records_of_noeol (eol : UInt8) (l : Bytes) (h : ∀ c ∈ l, c ≠ eol) :
+    records eol l = if l.isEmpty then [] else [l] := by
+  unfold records
+  rw [splitRecords_noeol eol l [] h]
+  rfl
+
+
+theorem splitRecords_eol (eol : UInt8) (l rest : Bytes) : ∀ cur : Bytes, (∀ c ∈ l, c ≠ eol) →
+    splitRecords eol cur (l ++ eol :: rest) = (cur.reverse ++ l) :: splitRecords eol [] rest := by
+  induction l with
+  | nil => intro cur _; simp [splitRecords]
+  | cons c l ih =>
+    intro cur hl
+    have hc : c ≠ eol := hl c (by simp)
+    rw [List.cons_append, splitRecords, if_neg hc, ih _ (fun x hx => hl x (by simp [hx]))]
+    simp
+
+theorem records_of_eol (eol : UInt8) (l rest : Bytes) (h : ∀ c ∈ l, c ≠ eol) :
+    records eol (l ++ eol :: rest) = l :: records eol rest := by
+  unfold records
+  rw [splitRecords_eol eol l rest [] h]
+  rfl
+
+theorem exists_first_eol (eol : UInt8) (input : Bytes) :
+    (∀ c ∈ input, c ≠ eol) ∨
+      ∃ l rest, input = l ++ eol :: rest ∧ (∀ c ∈ l, c ≠ eol) := by
+  induction input with
+  | nil => left; simp
+  | cons c t ih =>
+    by_cases hc : c = eol
+    · right; exact ⟨[], t, by simp [hc], by simp⟩
+    · rcases ih with h | ⟨l, rest, h1, h2⟩
+      · left; intro x hx
+        rcases List.mem_cons.mp hx with rfl | hx
+        · exact hc
+        · exact h x hx
+      · right
+        refine ⟨c :: l, rest, by simp [h1], ?_⟩
+        intro x hx
+        rcases List.mem_cons.mp hx with rfl | hx
+        · exact hc
+        · exact h2 x hx
+
+/-- every record of the input is free of EOL bytes -/
+theorem records_noeol (eol : UInt8) (input : Bytes) :
+    ∀ r ∈ records eol input, ∀ c ∈ r, c ≠ eol := by
+  generalize hn : input.length = n
+  induction n using Nat.strongRecOn generalizing input with
+  | _ n ih =>
+    rcases exists_first_eol eol input with h | ⟨l, rest, h1, h2⟩
+    · intro r hr
+      rw [records_of_noeol eol input h] at hr
+      split at hr
+      · simp at hr
+      · simp only [List.mem_singleton] at hr; subst hr; exact h
+    · intro r hr
+      subst h1
+      rw [records_of_eol eol l rest h2] at hr
+      simp only [List.mem_cons] at hr
+      rcases hr with rfl | hr
+      · exact h2
+      · exact ih rest.length (by simp at hn; omega) rest rfl r hr
+
+/-- the machine on one record (given without its EOL) -/
+def recRun (o : StreamOpt) (r : Bytes) : Run :=
+  if r = [] then Run.ok [o.eol.byte] else fieldsRun o 0 1 (splitFields [o.delimiter] r)
+
+def streamRecords (o : StreamOpt) : List Bytes → Run
+  | [] => Run.empty
+  | r :: t => (recRun o r).seq (streamRecords o t)
+
+/-- **The machine works record by record**: on the records of the input (the specification's
+    `records`: split at the EOL, a final unterminated non-empty piece counts) it does `recRun`,
+    and stops at the first record that fails. -/
+theorem streamRun_records (o : StreamOpt) (hwf : NoAdjFillers o.bounds) (input : Bytes) :
+    streamRun o {} (untagged input) = streamRecords o (records o.eol.byte input) := by
+  generalize hn : input.length = n
+  induction n using Nat.strongRecOn generalizing input with
+  | _ n ih =>
+    rcases exists_first_eol o.eol.byte input with h | ⟨l, rest, h1, h2⟩
+    · rw [records_of_noeol _ input h]
+      by_cases hi : input = []
+      · subst hi; simp [streamRun, streamEof, streamRecords]
+      · have hi' : input.isEmpty = false := by simpa using hi
+        rw [hi']
+        have := streamRun_record_eof o hwf input 0 1 [] false h (Or.inr hi)
+        simp only [Bool.false_eq_true, if_false, streamRecords, recRun, if_neg hi, Run.seq_empty, splitFields]
+        exact this
+    · subst h1
+      rw [records_of_eol _ l rest h2, untagged_append, untagged_cons]
+      simp only [streamRecords]
+      have ih' := ih rest.length (by simp at hn; omega) rest rfl
+      rw [← ih']
+      by_cases hl : l = []
+      · subst hl
+        simp only [untagged_nil, List.nil_append, recRun, if_true]
+        rw [run_cons, streamStep_eol _ _ _ _ rfl rfl]
+        simp
+      · have := streamRun_record_eol o l false (untagged rest) 0 1 [] false (by omega) h2
+          (fun ⟨_, _, h3⟩ => hl h3)
+        simp only [recRun, if_neg hl, splitFields]
+        exact this
+
+/-- the canonical form of the `-M` cutter in terms of records and fields -/
+theorem cutBytesStream_records (o : StreamOpt) (hwf : NoAdjFillers o.bounds) (segs : List Bytes) :
+    cutBytesStream o segs = streamRecords o (records o.eol.byte segs.flatten) := by
+  rw [cutBytesStream_canonical o hwf, ← streamRun_records o hwf]
+  rfl
+
+theorem streamRecords_eq_spec (o : StreamOpt) (cfg : Cfg) (rs : List Bytes)
+    (h : ∀ r ∈ rs, recRun o r = specRecord cfg r) :
+    streamRecords o rs = specRunRecords cfg rs := by
+  induction rs with
+  | nil => rfl
+  | cons r t ih =>
+    simp only [streamRecords, specRunRecords]
+    rw [h r (by simp), ih (fun x hx => h x (by simp [hx]))]
+
 end Tuc
